@@ -3,6 +3,7 @@
 import json, sys
 pid = sys.argv[1]
 wd = pid + "h"
+extra = (" At least TWO of the four must restructure GLUE code rather than a formula: how one function of the library calls another (passing an argument by keyword instead of by position or the reverse, naming an intermediate value before passing it on, building the keyword arguments in a dict first, extracting two adjacent calls into a private helper or inlining a small helper, reordering independent calls), how option dictionaries are copied and defaulted, or how object attributes are assigned (order of the assignments, a local variable assigned to the attribute afterwards)." if len(sys.argv) > 2 else "")
 p = next(json.loads(l) for l in open('/verif/properties.jsonl') if json.loads(l)['id'] == pid)
 print(f"""You are helping to evaluate a verification effort. You work ONLY inside the scratch git worktree /tmp/seed/{wd} (a checkout of the Python library `bycycle`, which segments neural time series into cycles, computes per-cycle features and detects oscillatory bursts). Do not read or write anything under /verif or /repo. There is no network. Python with all dependencies is /venv/bin/python; always run things as `cd /tmp/seed/{wd} && PYTHONPATH=/tmp/seed/{wd} /venv/bin/python ...`.
 
@@ -13,7 +14,7 @@ The following semantic property of the library holds on this checkout and MUST K
   code it is anchored in: {', '.join(p['anchors']['files'])}
   mechanisms: {json.dumps(p['anchors']['mechanism'])}
 
-Your task: produce FOUR independent BEHAVIOUR-PRESERVING refactorings of the code this property is anchored in (each on its own, each in its own patch) - the kind of clean-up a maintainer does without intending any change: renaming local variables, extracting or inlining a helper, reordering independent statements, replacing a loop by an equivalent comprehension or a correctly vectorised numpy expression (or the reverse), replacing a pandas idiom by an equivalent numpy one, restructuring if/elif chains, hoisting a computation, using a different but equivalent comparison or slice expression, adding a defensive copy, replacing `x.copy()` by `copy.deepcopy(x)`, moving an import, splitting a function in two. Make them of DIFFERENT kinds and make them touch the lines the mechanisms above point at (not just docstrings or comments). Each refactoring must leave the observable behaviour of every public function EXACTLY unchanged for all inputs (same return values bit for bit, same exceptions, same treatment of the caller's arguments) - be careful and conservative: if you are not sure a rewrite is exactly equivalent (ties, NaN, dtypes, empty inputs, index labels, views vs copies), choose another one.
+Your task: produce FOUR independent BEHAVIOUR-PRESERVING refactorings of the code this property is anchored in (each on its own, each in its own patch) - the kind of clean-up a maintainer does without intending any change: renaming local variables, extracting or inlining a helper, reordering independent statements, replacing a loop by an equivalent comprehension or a correctly vectorised numpy expression (or the reverse), replacing a pandas idiom by an equivalent numpy one, restructuring if/elif chains, hoisting a computation, using a different but equivalent comparison or slice expression, adding a defensive copy, replacing `x.copy()` by `copy.deepcopy(x)`, moving an import, splitting a function in two. Make them of DIFFERENT kinds and make them touch the lines the mechanisms above point at (not just docstrings or comments). Each refactoring must leave the observable behaviour of every public function EXACTLY unchanged for all inputs (same return values bit for bit, same exceptions, same treatment of the caller's arguments) - be careful and conservative: if you are not sure a rewrite is exactly equivalent (ties, NaN, dtypes, empty inputs, index labels, views vs copies), choose another one.{extra}
 
 For each refactoring k in {{1, 2, 3, 4}} create the directory /tmp/seed_out/{wd}_k/ containing:
   - patch.diff : output of `git diff` in the worktree for that refactoring alone;
